@@ -141,6 +141,8 @@ func (p *defaultPoll) handler(events []epollevent) (closed bool) {
 				syscall.Close(p.wop.FD)
 				syscall.Close(p.fd)
 				operator.done()
+				// hang-ups queued earlier in this batch are already detached: still deliver them
+				p.onhups()
 				return true
 			}
 			operator.done()
